@@ -1,0 +1,9 @@
+//go:build !verif
+
+package container
+
+// verifTraceCmd / verifTraceReply / verifPoint are verification hooks; without the build
+// tag verif they are empty and inlined away.
+func verifTraceCmd(side string, c *cmd)     {}
+func verifTraceReply(side string, r *reply) {}
+func verifPoint(name string)                {}
